@@ -24,9 +24,12 @@ def gen_ref(rng, ntitles):
     d = lambda: rng.choice(['', '$'])
     if s is None:
         pre, sname = '', None
-    elif rng.random() < 0.1:
-        pre, sname = rng.choice(['Nope!', "'No such'!"]), 'Nope' if True else None
-        sname = pre.strip("!'")
+    elif rng.random() < 0.15:
+        # a title that does not exist: a foreign one, or a look-alike of an existing one (other letter case, an extra blank)
+        t = TITLES[s]
+        look = [x for x in (t.upper(), t.lower(), t.swapcase(), t + ' ', ' ' + t) if x not in TITLES[:ntitles] and "'" not in x]
+        pre = rng.choice(['Nope!', "'No such'!"] + ["'%s'!" % x if (' ' in x) else '%s!' % x for x in look])
+        sname = pre[:-1][1:-1] if pre.startswith("'") else pre[:-1]
     else:
         t = TITLES[s]
         pre = ("'%s'!" % t) if (' ' in t or "'" in t or rng.random() < 0.3) else '%s!' % t
@@ -126,6 +129,8 @@ def corpus():
           {'ntitles': 3, 'own': 2, 'text': 'Main!$XFD$1048576', 'x': ['Main', 16384, 1048576, 16384, 1048576], 'area': False, 'wrap': ''},
           {'ntitles': 2, 'own': 0, 'text': "'Data_2'!$A$1:$D$2", 'x': ['Data_2', 1, 1, 4, 2], 'area': True, 'wrap': 'COUNTBLANK({r})'},
           {'ntitles': 2, 'own': 0, 'text': 'Nope!A1', 'x': ['Nope', 1, 1, 1, 1], 'area': False, 'wrap': ''},
+          {'ntitles': 2, 'own': 1, 'text': 'MAIN!A1', 'x': ['MAIN', 1, 1, 1, 1], 'area': False, 'wrap': ''},
+          {'ntitles': 3, 'own': 0, 'text': "'my sheet'!A1:B2", 'x': ['my sheet', 1, 1, 2, 2], 'area': True, 'wrap': 'SUM({r})'},
           {'ntitles': 2, 'own': 1, 'text': 'B:B', 'x': [None, 2, None, 2, None], 'area': True, 'wrap': 'SUM({r})'}]
     rs += [x['witness'] for x in C.known_findings()['findings'] if x['property'] == 'C02']
     return rs
@@ -145,8 +150,60 @@ def run(R, tier):
     for c in cases[:3] + cases[-2:]:
         R.sample({'reference': c['recipe']['text'], 'own_sheet': c['recipe']['own']})
     C.correspond(R, HEADER, 'report', cases, 'c02', 'reference token regexes and group indices, handle_cell, Excel.get_matrix/_get_vertical_range/_get_matrix, the cell/matrix translators', shard=150)
-    R.assumptions += ['values behind the coordinates are covered by C18 (reader) and C11 (aggregates); here the denoted coordinates are compared',
+    pipeline_cases(R)
+    R.assumptions += ['values behind the coordinates are covered by C18 (reader) and C11 (aggregates); here the denoted coordinates are compared (plus one workbook through the xlsx pipeline, by value)',
                       'CellIdentifierRangeToken is never produced by the lexer (MatrixOfCellIdentifiersToken precedes it): all areas go through get_matrix']
+
+
+def pipeline_cases(R):
+    """References evaluated through the real pipeline (xlsx file -> Parser -> Executor): stored zeros and FALSE at the END of rows and in
+    the last rows are values, never-written cells are blanks, and areas / whole columns over them count and sum exactly the stored cells."""
+    import os
+    from openpyxl import Workbook
+    d = os.path.join(C.BUILD, 'c02')
+    os.makedirs(d, exist_ok=True)
+    data = {'A1': 5, 'B1': 7, 'C1': 0, 'A2': 3, 'B2': 0, 'A3': 0, 'B4': 8, 'D4': False, 'A5': 0, 'B5': 0}
+    nums = {a: v for a, v in data.items() if not isinstance(v, bool)}
+
+    def inside(a, c1, r1, c2, r2):
+        c, r = I.a1(a)
+        return c1 <= c + 1 <= c2 and r1 <= r + 1 <= r2
+    checks = []
+    for a in ['C1', 'B2', 'A3', 'D4', 'B5', 'C2', 'E1', 'A6', 'C5']:
+        checks.append(('=Data!%s' % a, ('cell', data.get(a))))
+    for (c1, r1, c2, r2) in [(1, 1, 3, 1), (1, 1, 2, 5), (1, 1, 3, 3), (1, 1, 3, 5), (2, 1, 3, 2), (1, 3, 2, 5), (3, 1, 3, 1), (1, 5, 2, 5)]:
+        area = 'Data!%s%d:%s%d' % (col_letters(c1), r1, col_letters(c2), r2)
+        inn = [v for a, v in nums.items() if inside(a, c1, r1, c2, r2)]
+        allin = [a for a in data if inside(a, c1, r1, c2, r2)]
+        checks += [('=COUNT(%s)' % area, ('num', len(inn))), ('=SUM(%s)' % area, ('num', sum(inn))),
+                   ('=COUNTBLANK(%s)' % area, ('num', (c2 - c1 + 1) * (r2 - r1 + 1) - len(allin)))]
+    for col in 'AB':
+        inn = [v for a, v in nums.items() if a[0] == col]
+        checks += [('=COUNT(Data!%s:%s)' % (col, col), ('num', len(inn))), ('=SUM(Data!$%s:$%s)' % (col, col), ('num', sum(inn)))]
+    wb = Workbook()
+    ws = wb.active
+    ws.title = 'Main'
+    for i, (f, _) in enumerate(checks):
+        ws['A%d' % (i + 1)] = f
+    wd = wb.create_sheet('Data')
+    for a, v in data.items():
+        wd[a] = v
+    path = os.path.join(d, 'pipe_%d.xlsx' % os.getpid())
+    wb.save(path)
+    src = I.Parser().set_excel_file_path(path).disable_safety_check().get_translation()
+    e = I.executor(I.load(src))
+    for i, (f, (kind, want)) in enumerate(checks):
+        R.count(('pipeline', f), True)
+        got = I.outcome(lambda: e.get_cell(I.Cell(0, 0, i)).value)
+        if kind == 'cell':
+            ok = got[0] == 'ok' and ((want is None and type(got[1]).__name__ == 'EmptyCell') or (want is not None and type(got[1]) is type(want) and got[1] == want))
+        else:
+            ok = got[0] == 'ok' and type(got[1]).__name__ != 'EmptyCell' and got[1] == want
+        if not ok:
+            R.violation('through the xlsx pipeline the reference formula %s evaluates to %r (%s); the sheet Data stores %r, so it denotes %r'
+                        % (f, got[1] if got[0] == 'ok' else got, type(got[1]).__name__ if got[0] == 'ok' else 'exception', data, want),
+                        {'recipe': {'kind': 'pipeline', 'formula': f}, 'input_found': True})
+            return
 
 
 def replay(R, rp):
@@ -154,6 +211,11 @@ def replay(R, rp):
     if rc is None:
         print('nothing to replay: ' + str(rp.get('broken')))
         return 1
+    if rc.get('kind') == 'pipeline':
+        pipeline_cases(R)
+        for w, _ in R.violations:
+            print(w)
+        return 1 if R.violations else 0
     C.build(TARGETS)
     c = make_case(rc)
     rows = C.eval_report(HEADER, [c['coq']], 'report', 'c02_replay')
